@@ -525,7 +525,7 @@ package internals
 //@   ensures !istype(result, DpFactory)
 
 //@ func TryNewAnyDataProvider(val)
-//@   trusted
+//@   trusted_posts
 //@   pure
 //@   ensures[C10,C14] plain_data_gets_no_source_tag: !implements(val, DataProvider) ==> dptag(result0) == nil
 //@   ensures[C14] providers_pass_through: implements(val, DataProvider) ==> result0 == val && result1 == nil
